@@ -7,6 +7,16 @@ import io
 from . import gen, streams, universe
 
 
+class _CountingSink(io.BytesIO):
+    def __init__(self) -> None:
+        super().__init__()
+        self.ncalls = 0
+
+    def write(self, b):
+        self.ncalls += 1
+        return super().write(b)
+
+
 class Golden:
     __slots__ = ("cls", "inst", "tree", "data", "reads", "writes", "shape")
 
@@ -23,16 +33,19 @@ class Golden:
 def encode_clean(cls, inst) -> tuple[bytes, int]:
     from kio.serial import entity_writer
 
-    sink = streams.SimSink()
+    # a real BytesIO: the clean pre-pass must not depend on API discipline
+    # (that is C07's subject); write calls are counted on the side
+    sink = _CountingSink()
     entity_writer(cls)(sink, inst)
-    return streams.sink_data(sink), sink.ncalls
+    return sink.getvalue(), sink.ncalls
 
 
 def decode_clean(cls, data: bytes):
     from kio.serial import entity_reader
 
-    src = streams.SimSource(data, record=True)
+    src = streams.RecordingBytesIO(data)
     val = entity_reader(cls)(src)
+    src.pos = src.tell()
     return val, src
 
 
